@@ -6,7 +6,7 @@ P=$1; K=$2; shift 2
 SRC=/tmp/wt-$P/seeded_out/$K
 DST=/verif/seeded/$P-$K
 export GOFLAGS=-mod=mod GOPROXY=off
-mkdir -p $DST && cp $SRC/patch.diff $SRC/demo_test.go $SRC/meta.json $DST/ 2>/dev/null
+mkdir -p $DST; [ -f $DST/patch.diff ] || cp $SRC/patch.diff $SRC/demo_test.go $SRC/meta.json $DST/ 2>/dev/null
 PKG=$(python3 -c "import json;print(json.load(open('$DST/meta.json')).get('demo_package','pkg/scheduler').rstrip('/'))")
 WT=/tmp/sv-$P-$K
 git -C /repo worktree remove --force $WT 2>/dev/null
